@@ -32,12 +32,12 @@ theorem pvmLoop_frame (f : Nat) (st : PState) (n : Nat) (rest : Bytes) (hin : st
     hge, pexec]
 
 /-- The core: header, optional frame, object, STOP — on the Python machine, from its initial state. -/
-theorem pvm_cpickleS (p : Nat) (hp5 : p ≤ 5) (v : PyObjS) (b : Bytes) (s' : PSt)
-    (hok : pyOKp p (erase v)) (hsave : cpSaveS p v ⟨0, []⟩ = some (b, s')) (framed : Bool) (hlen : (b ++ [46]).length ≤ 2 ^ 63 - 1) :
+theorem pvm_cpickleS (mz : Option PKey → Bool) (py : Bool) (p : Nat) (hp5 : p ≤ 5) (v : PyObjS) (b : Bytes) (s' : PSt)
+    (hok : pyOKp p (erase v)) (hsave : cpSaveS mz py p v ⟨0, []⟩ = some (b, s')) (framed : Bool) (hlen : (b ++ [46]).length ≤ 2 ^ 63 - 1) :
     ∃ r st', pvmLoad ((if p ≥ 2 then [0x80, UInt8.ofNat p] else []) ++
         ((if framed then 0x95 :: le8 (b ++ [46]).length else []) ++ (b ++ [46]))) = (.ok r, st', []) ∧
       PRep st'.heap r (pyOf (erase v)) := by
-  obtain ⟨is, hpar, hnofr, hrun⟩ := psk_val (p := p) v ⟨0, []⟩ b s' hok hsave
+  obtain ⟨is, hpar, hnofr, hrun⟩ := psk_val (p := p) py v ⟨0, []⟩ b s' hok hsave
   have hislen := parses_length_le hpar
   have hpb : (UInt8.ofNat p).toNat = p := by simp [UInt8.toNat_ofNat']; omega
   -- the state after the header(s)
@@ -106,11 +106,11 @@ theorem pvm_cpickleS (p : Nat) (hp5 : p ≤ 5) (v : PyObjS) (b : Bytes) (s' : PS
     one frame) back to the object: it raises nothing, consumes everything and returns `pyOf obj` — lists, dicts and
     bytearrays as heap objects with that content.  Hypotheses are what CPython itself demands: text is valid UTF-8, dict
     keys are hashable with at most one NaN-holding key per dict; at protocol 0 the float-text hypothesis. -/
-theorem C06_pickler_pvm (p : Nat) (hp5 : p ≤ 5) (v : PyObjS) (bs : Bytes)
-    (hok : pyOKp p (erase v)) (hd : cpDumpsFramedS p v = some bs) (hlen : bs.length < 2 ^ 63) :
+theorem C06_pickler_pvm (mz : Option PKey → Bool) (py : Bool) (p : Nat) (hp5 : p ≤ 5) (v : PyObjS) (bs : Bytes)
+    (hok : pyOKp p (erase v)) (hd : cpDumpsFramedS mz py p v = some bs) (hlen : bs.length < 2 ^ 63) :
     ∃ r st', pvmLoad bs = (.ok r, st', []) ∧ PRep st'.heap r (pyOf (erase v)) := by
   unfold cpDumpsFramedS cpDumpsBodyS at hd
-  cases hs : cpSaveS p v ⟨0, []⟩ with
+  cases hs : cpSaveS mz py p v ⟨0, []⟩ with
   | none => simp [hs] at hd
   | some r0 =>
     obtain ⟨b, s'⟩ := r0
@@ -120,9 +120,9 @@ theorem C06_pickler_pvm (p : Nat) (hp5 : p ≤ 5) (v : PyObjS) (bs : Bytes)
       simp only [List.length_append] at hlen ⊢
       omega
     by_cases hf : 4 ≤ p ∧ 3 ≤ b.length
-    · have := pvm_cpickleS p hp5 v b s' hok hs true hl
+    · have := pvm_cpickleS mz py p hp5 v b s' hok hs true hl
       simpa [hf.1, hf.2] using this
-    · have := pvm_cpickleS p hp5 v b s' hok hs false hl
+    · have := pvm_cpickleS mz py p hp5 v b s' hok hs false hl
       simpa [hf] using this
 
 /-- **C06 (the two machines agree on what CPython's pickler writes).**  For every object of the basic types with
@@ -132,11 +132,11 @@ theorem C06_pickler_pvm (p : Nat) (hp5 : p ≤ 5) (v : PyObjS) (bs : Bytes)
     side (`PRep`).  Hypotheses: what each side demands of dict keys (`pkOK`: acceptable to og-rek's table and pairwise
     different for it; `pyOKp`: hashable in Python, at most one NaN key), valid UTF-8 text, bytearrays below 4 GiB, and at
     protocol 0 the float-text hypothesis. -/
-theorem C06_pickler_agree (cfg : Cfg) (hook : Hook) (p : Nat) (hp5 : p ≤ 5) (v : PyObjS) (bs : Bytes)
-    (hgo : pkOK cfg p (erase v)) (hpy : pyOKp p (erase v)) (hd : cpDumpsFramedS p v = some bs) (hlen : bs.length < 2 ^ 63)
+theorem C06_pickler_agree (cfg : Cfg) (hook : Hook) (mz : Option PKey → Bool) (py : Bool) (p : Nat) (hp5 : p ≤ 5) (v : PyObjS) (bs : Bytes)
+    (hgo : pkOK cfg p (erase v)) (hpy : pyOKp p (erase v)) (hd : cpDumpsFramedS mz py p v = some bs) (hlen : bs.length < 2 ^ 63)
     (st0 : DState) (hfresh : st0.memo = []) :
     (∃ r st', decode (goCfg cfg) hook st0 bs = (.ok r, st', []) ∧ Rep (goCfg cfg) GoVal.ref st'.heap r (goOf (erase v))) ∧
     (∃ r st', pvmLoad bs = (.ok r, st', []) ∧ PRep st'.heap r (pyOf (erase v))) :=
-  ⟨C02_pickler_shared cfg hook p hp5 v bs hgo hd st0 hfresh, C06_pickler_pvm p hp5 v bs hpy hd hlen⟩
+  ⟨C02_pickler_shared cfg hook mz py p hp5 v bs hgo hd st0 hfresh, C06_pickler_pvm mz py p hp5 v bs hpy hd hlen⟩
 
 end Ogorek
